@@ -278,6 +278,61 @@ def allof_required(rep, d) -> None:
                 rep.violate(f"C10/allof-required/{k}/{prop}", f"{k}.{prop}: mandatory argument={got}, but required-by-some-member-and-no-default={mand}", schema=schema, signature=sigs[k])
 
 
+ODD_NAMES = ['plain', 'height"', 'bay\\slot', 'line\nbreak', 'tab\tsep', 'uni\u2028sep', 'sp ace', 'dash-ed', '1digit', 'class', "quo'te", 'nul\x00l', 'del\x7fete', 'cr\rx']
+
+
+def odd_names(rep, d) -> None:
+    """`required` is matched against the property names AS WRITTEN, whatever characters they contain: a required property is a mandatory
+    key on decode (absence raises) and is always encoded; the same property left out of `required` may be absent both ways."""
+    props = {n: {"type": "string"} for n in ODD_NAMES}
+    doc = gen.mkdoc(schemas={"OddReq": {"type": "object", "required": list(ODD_NAMES), "properties": props},
+                             "OddOpt": {"type": "object", "properties": props},
+                             "OddHalf": {"type": "object", "required": ODD_NAMES[1::2], "properties": props}})
+    for literal in (False,):
+        g = gen.generate(doc, d / "oddn")
+        if g["exc"] or g["rejected"]:
+            rep.violate("C10/odd-names/not-generated", f"{g['exc'] or g['diags'][:2]}", doc=doc)
+            return
+        dropped = {x["header"] + x["detail"] for x in g["diags"]}
+        script = ("import json,sys; sys.path.insert(0, %r); import oddn.models as m; names=%r; out={}\n"
+                  "for cls in ('OddReq','OddOpt','OddHalf'):\n"
+                  "    C=getattr(m, cls, None)\n"
+                  "    if C is None: out[cls]='absent'; continue\n"
+                  "    full={n:'v' for n in names}; r={}\n"
+                  "    try: r['full']=C.from_dict(dict(full)).to_dict()==full\n"
+                  "    except Exception as e: r['full']=repr(e)[:80]\n"
+                  "    for n in names:\n"
+                  "        part={k:v for k,v in full.items() if k!=n}\n"
+                  "        try: o=C.from_dict(dict(part)); r[n]=['ok', o.to_dict()==part]\n"
+                  "        except KeyError: r[n]=['keyerror', None]\n"
+                  "        except Exception as e: r[n]=[repr(e)[:80], None]\n"
+                  "    out[cls]=r\n"
+                  "print(json.dumps(out))") % (str(d), ODD_NAMES)
+        import subprocess
+        from ..common import VENV_PY
+        p = subprocess.run([VENV_PY, "-I", "-c", script], capture_output=True, text=True, timeout=120)
+        if p.returncode != 0:
+            rep.violate("C10/odd-names/import", p.stderr[-500:], doc=doc)
+            return
+        out = json.loads(p.stdout.strip().splitlines()[-1])
+        req = {"OddReq": set(ODD_NAMES), "OddOpt": set(), "OddHalf": set(ODD_NAMES[1::2])}
+        for cls, r in out.items():
+            if r == "absent":
+                if not any(cls in x for x in dropped):
+                    rep.violate(f"C10/odd-names/{cls}/absent-undiagnosed", "the model is neither generated nor named in a diagnostic", doc=doc)
+                continue
+            if r["full"] is not True:
+                rep.violate(f"C10/odd-names/{cls}/full-instance", f"an instance carrying every property does not round-trip: {r['full']}", doc=doc)
+            for i, n in enumerate(ODD_NAMES):
+                rep.count(1, ("odd-names", cls, n))
+                how, same = r[n]
+                label = "".join(ch if ch.isalnum() else f"u{ord(ch):04x}" for ch in n)
+                if n in req[cls] and how != "keyerror":
+                    rep.violate(f"C10/odd-names/required-not-mandatory/{label}", f"{cls}: property {n!r} is listed in `required` but an instance without it is accepted ({how})", doc=doc, cls=cls)
+                if n not in req[cls] and (how != "ok" or same is not True):
+                    rep.violate(f"C10/odd-names/optional-not-omittable/{label}", f"{cls}: optional property {n!r} absent: {how}, re-encoded identically={same}", doc=doc, cls=cls)
+
+
 def run(rep) -> None:
     quick = rep.tier == "quick"
     d = scratch("c10-")
@@ -309,6 +364,7 @@ def run(rep) -> None:
         spellings(rep, d)
         shared_positions(rep)
         allof_required(rep, d)
+        odd_names(rep, d)
         # ParamWire.tla W3: an omitted optional parameter is not transmitted in any location; None never reaches the query string
         paramwire.judge(rep, "C10", d)
         rep.sample({"descriptor": descs[3]["d"], "states": ["absent", "null", "present"]})
